@@ -114,6 +114,20 @@ theorem move_confined (fsync : Bool) (c1 : Trace.FPath) (h1 : Trace.Comp) (c2 : 
     simp [Trace.Op.paths] at hp <;> (try rcases hp with rfl | rfl) <;> (try subst hp) <;>
     simp [Trace.isPrefix, List.isPrefixOf_iff_prefix]
 
+/-- the hook command as a whole: for a template of plain words and placeholders, the shell reads exactly the
+    template's words with `%(user)s`, `%(path)s`, `%(cwd)s` replaced by the login, the item's file-system path and the
+    storage folder — whatever characters the login and the request path contain -/
+theorem hook_command_words (e : Shell.HookEnv) (ts : List Shell.HookTok) (h : ∀ t ∈ ts, t.plain) :
+    Shell.words (Shell.hookCommand ts e) = some (ts.map (Shell.HookTok.value e)) := Shell.words_hookCommand e ts h
+
+/-- in particular the command has as many words as the template, and its first word (the program) is the template's -/
+theorem hook_command_shape (e : Shell.HookEnv) (prog : Str) (ts : List Shell.HookTok)
+    (h : ∀ t ∈ (Shell.HookTok.lit prog :: ts), t.plain) :
+    ∃ args, Shell.words (Shell.hookCommand (.lit prog :: ts) e) = some (prog :: args) ∧ args.length = ts.length := by
+  refine ⟨ts.map (Shell.HookTok.value e), ?_, by simp⟩
+  rw [Shell.words_hookCommand e _ h]
+  simp [Shell.HookTok.value]
+
 -- non-vacuity
 example : sanitize "/../../etc/passwd".toList = "/etc/passwd".toList := by decide +kernel
 example : (match toFilesystem "u/.Radicale.cache/item".toList with
@@ -121,5 +135,10 @@ example : (match toFilesystem "u/.Radicale.cache/item".toList with
 example : (match toFilesystem "u/cal~".toList with | .error b => b == "cal~".toList | .ok _ => false) = true := by
   decide +kernel
 example : Shell.quote "a'; rm -rf $HOME #".toList = "'a'\"'\"'; rm -rf $HOME #'".toList := by decide +kernel
+example : Shell.words (Shell.hookCommand [.lit "git".toList, .lit "add".toList, .path, .user]
+    { user := "a; touch pwned".toList, path := "/u/$(reboot).ics".toList, folder := "/srv".toList, root := "/srv/collection-root".toList })
+    = some ["git".toList, "add".toList, "/srv/collection-root/u/$(reboot).ics".toList, "a; touch pwned".toList] := by decide +kernel
+-- without the quoting the same request path would be an expansion the model shell refuses to read as text
+example : Shell.words ("git add /srv/collection-root/u/$(reboot).ics".toList) = none := by decide +kernel
 
 end C06
